@@ -3,6 +3,7 @@ mod codec;
 mod config;
 mod distro;
 mod indexfile;
+mod logfile;
 mod naming;
 mod sequence;
 mod util;
@@ -16,6 +17,7 @@ fn main() {
         "codec" => codec::run(),
         "distro" => distro::run(),
         "indexfile" => indexfile::run(),
+        "logfile" => logfile::run(),
         "naming" => naming::run(),
         "config" => config::run(),
         "openapi" | "console" | "perm" => auth::run(model),
